@@ -192,7 +192,7 @@ func c09Routes() []routeCase {
 func runC09(tier string, _ []string) int {
 	c := vlib.NewCtx("C09", tier, "exploration")
 	vlib.SetPortBlock(9)
-	c.SetRule("part A: an instance configured with an auth token; methods x node routes (/v1/nodes, /:id, /points, /samples, /parents, /not, unknown; path-cleaning variants) x 27 Authorization values (absent, empty, the token and near misses, Bearer variants, the instance's JWT, JWTs minted with the instance key read from the store file: other key, empty key, HS384, HS512, none, expired, payload-tampered, truncated, unsigned, garbage) x bodies; each probe targets a fresh id and an existing node; monitor: status 401 for every non-credential, no bus message mentioning the probe id on a '>' tap, tree dump unchanged; credentials must be served; NATS TCP and WebSocket connects without / with a wrong token must fail. part B: user placements (created, moved, mirrored, deleted, re-added, under a deleted group, two users with one e-mail, wrong password) vs /v1/auth: token issued exactly when the model finds a live path to the root; the node listing for the issued token is a subset of the subtrees of the user's live placements. distinct = (credential, route kind, outcome) / (placement scenario, model verdict)")
+	c.SetRule("part A: an instance configured with an auth token; methods x node routes (/v1/nodes, /:id, /points, /samples, /parents, /not, unknown; path-cleaning variants) x 27 Authorization values (absent, empty, the token and near misses, Bearer variants, the instance's JWT, JWTs minted with the instance key read from the store file: other key, empty key, HS384, HS512, none, expired, payload-tampered, truncated, unsigned, garbage; plus a token used while valid and again after its expiry) x bodies; each probe targets a fresh id and an existing node; monitor: status 401 for every non-credential, no bus message mentioning the probe id on a '>' tap, tree dump unchanged; credentials must be served; NATS TCP and WebSocket connects without / with a wrong token must fail. part B: user placements (created, moved, mirrored, deleted, re-added, under a deleted group, two users with one e-mail, wrong password) vs /v1/auth: token issued exactly when the model finds a live path to the root; the node listing for the issued token is a subset of the subtrees of the user's live placements. distinct = (credential, route kind, outcome) / (placement scenario, model verdict)")
 	c.Assume("'open' header forms (whitespace around the token, lower-case scheme) are only required to leave no trace if answered 401")
 	cl := &http.Client{Timeout: 30 * time.Second}
 
@@ -281,6 +281,17 @@ func runC09(tier string, _ []string) int {
 		creds := makeCreds(r, authToken, key, validJWT, adminID)
 		routes := c09Routes()
 		probeN := 0
+		// a token of this instance that expires during the round: used while valid now, and again after
+		// its expiry at the end of the round (an instance must not remember that it once accepted it)
+		expAt := time.Now().Unix() + 2
+		expiring, _ := jwt.NewWithClaims(jwt.SigningMethodHS256, jwt.StandardClaims{ExpiresAt: expAt, Issuer: "simpleiot", Id: adminID}).SignedString(key)
+		expUsedWhileValid := 0
+		for _, rt := range []struct{ m, p, b string }{{"GET", "/v1/nodes/" + existing, grp}, {"GET", "/v1/nodes", ""}, {"POST", "/v1/nodes/" + existing + "/points", `[{"type":"value","value":1}]`}} {
+			res, err := doHTTP(cl, rt.m, base+rt.p, "Bearer "+expiring, true, []byte(rt.b), "application/json")
+			if err == nil && res.Status == 200 {
+				expUsedWhileValid++
+			}
+		}
 		for _, cr := range creds {
 			for _, rt := range routes {
 				probeN++
@@ -352,6 +363,43 @@ func runC09(tier string, _ []string) int {
 					c.Sample(wit)
 				}
 			}
+		}
+		// the expiring token again, now past its expiry (only later makes it more expired: no deadline on our side)
+		if expUsedWhileValid > 0 {
+			for time.Now().Unix() <= expAt+1 {
+				time.Sleep(100 * time.Millisecond)
+			}
+			w, err := vlib.Walk(nc)
+			if err != nil {
+				c.Inconclusive(err.Error())
+				return
+			}
+			before := vlib.DumpString(w)
+			for _, rt := range []struct{ m, p, b string }{{"GET", "/v1/nodes/" + existing, grp}, {"GET", "/v1/nodes", ""}, {"POST", "/v1/nodes/" + existing + "/points", `[{"type":"value","value":2}]`}} {
+				res, err := doHTTP(cl, rt.m, base+rt.p, "Bearer "+expiring, true, []byte(rt.b), "application/json")
+				c.Eval(1)
+				if err != nil {
+					c.Violate("auth:http-request-failed", fmt.Sprintf("%s %s: %v", rt.m, rt.p, err), nil)
+					return
+				}
+				if res.Status != 401 {
+					c.Violate("auth:served-without-credentials:jwt-expired-after-use", fmt.Sprintf("%s %s with a token that expired %d s ago (and had been used %d times while valid) answered %d, not 401", rt.m, rt.p, time.Now().Unix()-expAt, expUsedWhileValid, res.Status), map[string]any{"method": rt.m, "path": rt.p, "status": res.Status})
+					return
+				}
+			}
+			w, err = vlib.Walk(nc)
+			if err != nil {
+				c.Inconclusive(err.Error())
+				return
+			}
+			if after := vlib.DumpString(w); after != before {
+				c.Violate("auth:unauthenticated-request-changed-nodes", "tree changed by a request with an expired token", map[string]any{"before": before, "after": after})
+				return
+			}
+			c.Count("expired_after_use_checked", 1)
+			c.Distinct("jwt-expired-after-use -> 401")
+		} else {
+			c.Count("expiring_token_first_use_came_too_late", 1)
 		}
 		// a valid credential really reaches the node
 		existing, err = d.create(grp, "variable", false)
